@@ -1,7 +1,10 @@
 """C06 -- a write that raises changes nothing: row and in-memory values stay as before."""
 from tools.props import ormlib as L
-from tools.props.ormlib import run_impl, coq_case, COQ_HEADER, CORR_VO, SOURCES  # noqa (plugin interface)
-from tools.props.c04 import distribution, key, explain  # noqa
+from tools.props.ormlib import COQ_HEADER, CORR_VO  # noqa (plugin interface)
+from tools.props.c04 import key, explain  # noqa
+from tools.props import c04 as _c04
+
+SOURCES = L.SOURCES + ['sqlobject/inheritance/__init__.py']
 
 PROP = 'C06'
 PROPS_VO = 'Props/C06.vo'
@@ -12,11 +15,12 @@ COQ_SHARD = 40
 REPLAY_KIND = 'history'
 EXHAUSTIVE = {'quick': False, 'thorough': False}
 WRITES = ('create', 'setattr', 'set', 'destroy', 'syncupdate')
-RULE = ('seeded random histories (3..40 operations) in which write operations fail in every modelled way: an invalid value in any position of '
+RULE = ('(a) seeded random histories (3..40 operations) in which write operations fail in every modelled way: an invalid value in any position of '
         'a multi-column set or create, NULL into NOT NULL, a duplicate unique key, a missing required column, and an injected database error at '
         'statement k in {0,1,2} of the operation (OperationalError raised from the connection\'s _executeRetry). After every raising write the tables, '
         'the passive state of every held instance and the set of cached ids are compared with the state before. Non-trivial = at least one write '
-        'raised; distinct = distinct operation list.')
+        'raised; distinct = distinct operation list. (b) a stream of creates on a three-level InheritableSQLObject chain failing at every level '
+        '(invalid value, NOT NULL, UNIQUE, injected error at statement k): tables and cache registrations before/after, judged by the oracle only.')
 EXPLANATION = ('Theorems over Model/Orm.v (every write operation, every failure position, every fault index) + correspondence with the real '
                'SQLObject after every operation + atomicity oracle on the implementation.')
 TRUSTED_BASE = L.TRUSTED_COMMON + [
@@ -37,19 +41,181 @@ def corpus():
         {'cfg': {'cache': True, 'freq': 100, 'frac': 2}, 'ops': [['create', 2, [[1, 100]]], ['fault', 0, ['destroy', 0]], ['read', 0, 0]]},
         # open finding: a database error at the re-read after the INSERT
         {'cfg': {'cache': True, 'freq': 100, 'frac': 2}, 'ops': [['fault', 1, ['create', 0, [[1, 100]]]], ['get', 0, 1]]},
+        # open finding: a database error at the clean-up DELETE of a failed subclass insert
+        {'inherit': True, 'cfg': {'cache': True}, 'ops': [['icreate', 1, {'name': 1, 'y': None}, 3]]},
+        # seeded once: clean-up skipped for validation errors of a child-level column
+        {'inherit': True, 'cfg': {'cache': True}, 'ops': [['icreate', 1, {'name': 1, 'y': 'bad'}, None], ['icreate', 2, {'name': 2, 'y': 1, 'w': 'bad'}, None]]},
     ]
 
 
 def generate(rng, tier):
     n = 800 if tier == 'quick' else 20000
-    return [L.gen_history(rng, PROFILE, rng.randint(3, 40)) for _ in range(n)]
+    m = 300 if tier == 'quick' else 5000
+    return [L.gen_history(rng, PROFILE, rng.randint(3, 40)) for _ in range(n)] + [gen_inherit(rng) for _ in range(m)]
+
+
+# ------------------------------------------------------------------ inheritance stream (failed subclass inserts)
+# Judged by the oracle on the implementation only; the model of inheritable classes belongs to C15.
+ILEVELS = ['VInhP', 'VInhC', 'VInhG']
+ITABLES = ['v_inh_p', 'v_inh_c', 'v_inh_g']
+_iclasses = None
+
+
+def iclasses():
+    global _iclasses
+    if _iclasses is None:
+        from sqlobject import IntCol
+        from sqlobject.inheritance import InheritableSQLObject
+
+        class VInhP(InheritableSQLObject):
+            name = IntCol(alternateID=True)
+            x = IntCol(default=None)
+
+        class VInhC(VInhP):
+            y = IntCol(notNone=True)
+            z = IntCol(default=None, unique=True)
+
+        class VInhG(VInhC):
+            w = IntCol(default=None)
+        _iclasses = [VInhP, VInhC, VInhG]
+    return _iclasses
+
+
+def gen_inherit(rng):
+    ops, names, zs = [], [0], [0]
+
+    def fresh(lst):
+        lst[0] += 1
+        return lst[0]
+    for _ in range(rng.randint(2, 10)):
+        lvl = rng.choice([0, 1, 1, 2, 2])
+        kw = {}
+        kw['name'] = rng.randint(1, names[0]) if names[0] and rng.random() < 0.15 else fresh(names)
+        if rng.random() < 0.5:
+            kw['x'] = rng.choice([None, 1, 2, 'bad'] if rng.random() < 0.3 else [None, 1, 2])
+        if lvl >= 1:
+            r = rng.random()
+            if r < 0.75:
+                kw['y'] = rng.randint(0, 3)
+            elif r < 0.83:
+                kw['y'] = None
+            elif r < 0.92:
+                kw['y'] = 'bad'
+            if rng.random() < 0.5:
+                kw['z'] = rng.randint(1, zs[0]) if zs[0] and rng.random() < 0.3 else fresh(zs)
+        if lvl >= 2 and rng.random() < 0.7:
+            kw['w'] = rng.choice([None, 1, 'bad'] if rng.random() < 0.4 else [None, 1])
+        fault = rng.randint(0, 6) if rng.random() < 0.2 else None
+        ops.append(['icreate', lvl, kw, fault])
+    return {'inherit': True, 'cfg': {'cache': rng.random() < 0.7}, 'ops': ops}
+
+
+def run_inherit(case):
+    from sqlobject.sqlite.sqliteconnection import SQLiteConnection
+    from sqlobject import dberrors
+    conn = SQLiteConnection(':memory:', cache=bool(case['cfg']['cache']))
+    cls = iclasses()
+    for c in cls:
+        c._connection = conn
+        c.createTable()
+    state = {'n': 0, 'fault': None, 'log': []}
+    orig = conn._executeRetry
+
+    def wrapped(rc, cur, q):
+        i = state['n']
+        state['n'] += 1
+        state['log'].append(q.split(' ', 1)[0].upper())
+        if state['fault'] is not None and state['fault'] == i:
+            raise dberrors.OperationalError('injected fault')
+        return orig(rc, cur, q)
+    conn._executeRetry = wrapped
+
+    def dump():
+        raw = conn.getConnection()
+        cur = raw.cursor()
+        out = []
+        for c in cls:
+            cur.execute('SELECT * FROM %s ORDER BY id' % c.sqlmeta.table)
+            out.append([list(r) for r in cur.fetchall()])
+        cur.close()
+        conn.releaseConnection(raw)
+        return out
+
+    def cached():
+        res = []
+        for c in cls:
+            f = conn.cache.caches.get(c.__name__)
+            res.append(sorted(set((list(f.cache.keys()) if f.doCache else []) +
+                                  [k for k, r in list(f.expiredCache.items()) if r() is not None])) if f else [])
+        return res
+    steps = []
+    try:
+        for op in case['ops']:
+            _, lvl, kw, fault = op
+            before_t, before_c = dump(), cached()
+            state['n'], state['fault'], state['log'] = 0, fault, []
+            try:
+                o = cls[lvl](**{k: ('zz' if v == 'bad' else v) for k, v in kw.items()})
+                out = ['ret', o.id]
+                del o
+            except Exception as e:  # noqa
+                out = ['exc', type(e).__name__]
+            state['fault'] = None
+            import gc
+            gc.collect()
+            steps.append({'out': out, 'before': before_t, 'after': dump(), 'cached_before': before_c, 'cached_after': cached(),
+                          'log': list(state['log'])})
+    finally:
+        conn._executeRetry = orig
+        conn.cache.clear()
+        conn.close()
+    return {'isteps': steps}
+
+
+def run_impl(cases):
+    res = []
+    for c in cases:
+        try:
+            res.append(run_inherit(c) if c.get('inherit') else {'steps': L.run_history(c)})
+        except Exception as e:  # noqa
+            res.append({'crash': '%s: %s' % (type(e).__name__, e)})
+    return res
+
+
+def coq_case(case, obs):
+    if case.get('inherit'):
+        # no model here (C15 models inheritable classes); an empty history agrees trivially
+        return '{| c_cfg := {| doCache := true; cullFreq := 100; cullFrac := 2 |}; c_steps := [] |}'
+    return L.coq_case(case, obs)
+
+
+def inherit_failures(case, obs):
+    for n, (op, st) in enumerate(zip(case['ops'], obs['isteps'])):
+        if st['out'][0] != 'exc':
+            continue
+        base = {'step': n, 'op': op, 'raised': st['out'][1], 'kind_of_write': 'inherit-create', 'fault_index': op[3],
+                'statements': st['log']}
+        if st['after'] != st['before']:
+            d = dict(base)
+            d['what'] = 'creating a %s raised %s but rows were left behind: %r -> %r' % (
+                ILEVELS[op[1]], st['out'][1], st['before'], st['after'])
+            yield d
+        elif st['cached_after'] != st['cached_before']:
+            d = dict(base)
+            d['what'] = 'creating a %s raised %s but instances stayed registered in the cache: %r -> %r' % (
+                ILEVELS[op[1]], st['out'][1], st['cached_before'], st['cached_after'])
+            yield d
 
 
 def search_cases(rng, tier):
-    return [L.gen_history(rng, PROFILE, rng.randint(3, 60)) for _ in range(6000)]
+    return [L.gen_history(rng, PROFILE, rng.randint(3, 60)) for _ in range(1500)]
 
 
 def failures(case, obs):
+    if case.get('inherit'):
+        for f in inherit_failures(case, obs):
+            yield f
+        return
     for info in L.Walk(case, obs):
         st, prev, core = info['st'], info['prev'], info['core']
         t = core[0]
@@ -98,10 +264,37 @@ def classify(case, obs, f):
     # autocommitted the row, the new instance is already registered
     if f['kind_of_write'] == 'create' and f['raised'] == 'EOperational' and f['fault_index'] == 1:
         return 'create_fails_after_insert'
+    # the same defect one level up or down an inheritance chain: the injected error hit the re-read (SELECT) that
+    # follows the INSERT of one of the levels
+    if f['kind_of_write'] == 'inherit-create' and f['raised'] == 'OperationalError' and f['fault_index'] is not None:
+        log = f.get('statements') or []
+        k = f['fault_index']
+        if k < len(log) and log[k] == 'SELECT' and k >= 1 and log[k - 1] == 'INSERT':
+            return 'create_fails_after_insert'
+        # the injected error hit the clean-up DELETE of the parent row after a level's insert had failed
+        if k < len(log) and log[k] == 'DELETE':
+            return 'inherit_cleanup_fault_leaves_parent'
     return None
 
 
+def distribution(cases, obs):
+    plain = [(c, o) for c, o in zip(cases, obs) if not c.get('inherit')]
+    d = _c04.distribution([c for c, _ in plain], [o for _, o in plain])
+    inh = {'cases': 0, 'creates': 0, 'raised': {}}
+    for c, o in zip(cases, obs):
+        if c.get('inherit') and 'isteps' in o:
+            inh['cases'] += 1
+            for st in o['isteps']:
+                inh['creates'] += 1
+                if st['out'][0] == 'exc':
+                    inh['raised'][st['out'][1]] = inh['raised'].get(st['out'][1], 0) + 1
+    d['inheritance_stream'] = inh
+    return d
+
+
 def nontrivial(case, obs):
+    if case.get('inherit'):
+        return any(st['out'][0] == 'exc' for st in obs['isteps'])
     for info in L.Walk(case, obs):
         if not info['ok'] and info['core'][0] in WRITES and info['st']['out'][1] != 'EBadHandle':
             return True
